@@ -13,6 +13,7 @@ from typing import List, Union, Generator, Dict, Any, Optional, Type
 from ..context import RTMAContext
 from ..validators import ByteArray, Uint32, String
 from ..message import Message, MessageHeader, MessageData
+from ..header import TimeCodeMessageHeader, get_header_cls
 from ..message_base import MessageBase, MessageMeta
 from ..exceptions import VersionMismatchWarning
 
@@ -147,11 +148,14 @@ class QLReader:
                     f.read(ctypes.sizeof(QLFileHeader))
                 )
                 msg_header_size = file_header.message_header_size
+                hdr_cls = get_header_cls(
+                    timecode=(msg_header_size == TimeCodeMessageHeader().size)
+                )
 
                 # Extract the message headers
                 for _ in range(file_header.num_messages):
                     raw = f.read(msg_header_size)
-                    headers.append(MessageHeader.from_buffer_copy(raw))
+                    headers.append(hdr_cls.from_buffer_copy(raw))
 
                 # Extract the message data offsets for each message
                 offset_size = file_header.data_block_offset_size
